@@ -289,6 +289,16 @@ def relayout_corpus(V, thorough, rnd):
         for k, v in variants.items():
             tasks.append((v, r["ctor"], {}))
             meta.append((i, k))
+        # CRLF versus LF when an UNPAIRED apostrophe precedes the line ends (a comment with an apostrophe, a value with an escaped quote):
+        # line-end handling that looks at quote parity must not take the rest of the script for the inside of a literal
+        for j, head in enumerate(("-- the customer's data\n", "# don't drop\n", "CREATE TABLE q0 (z int COMMENT 'the user\\'s title');\n")):
+            if (i + j) % 3 and not thorough:
+                continue
+            lf = head + t.replace("\r\n", "\n")
+            tasks.append((lf, r["ctor"], {}))
+            meta.append((f"{i}/{j}", "orig"))
+            tasks.append((lf.replace("\n", "\r\n"), r["ctor"], {}))
+            meta.append((f"{i}/{j}", "crlf_after_unpaired_quote"))
     outs, _ = C.parse_many(tasks)
     base = {}
     n = 0
@@ -300,7 +310,7 @@ def relayout_corpus(V, thorough, rnd):
             continue
         n += 1
         if o != base[i]:
-            V.mismatch({"what": "corpus re-layout", "variant": k, "ddl": corp[i]["text"][:1200], "paths": C.diff_paths(base[i][1], o[1])[:5] if o[0] == "ok" else ["raised"]},
+            V.mismatch({"what": "corpus re-layout", "variant": k, "ddl": tk[0][:1200], "paths": C.diff_paths(base[i][1], o[1])[:5] if o[0] == "ok" else ["raised"]},
                        paths=["corpus_" + k])
     return n
 
